@@ -20,7 +20,8 @@ from .common import AnalysisError, norm_stmt, parse_py
 
 SAFE_BUILTINS = {"tuple": tuple, "sorted": sorted, "map": map, "set": set, "dict": dict, "list": list, "str": str,
                  "len": len, "frozenset": frozenset, "range": range, "zip": zip, "enumerate": enumerate, "min": min,
-                 "max": max, "bool": bool, "int": int, "any": any, "all": all}
+                 "max": max, "bool": bool, "int": int, "any": any, "all": all,
+                 "isinstance": isinstance, "float": float, "complex": complex, "bytes": bytes, "type": type, "abs": abs}
 SAFE_MODULE_ATTRS = {
     "re": {"escape": re.escape, "UNICODE": re.UNICODE},
     "_itertools": {"permutations": itertools.permutations, "product": itertools.product},
@@ -33,7 +34,7 @@ ALLOWED_NODES = (
     ast.Call, ast.keyword, ast.Starred, ast.Set, ast.Dict, ast.List, ast.Tuple, ast.ListComp, ast.SetComp, ast.DictComp,
     ast.GeneratorExp, ast.comprehension, ast.Attribute, ast.Subscript, ast.Slice, ast.IfExp, ast.Compare, ast.Eq,
     ast.NotEq, ast.In, ast.NotIn, ast.BoolOp, ast.And, ast.Or, ast.UnaryOp, ast.Not, ast.USub, ast.FloorDiv, ast.Sub,
-    ast.Lt, ast.LtE, ast.Gt, ast.GtE,
+    ast.Lt, ast.LtE, ast.Gt, ast.GtE, ast.BitOr, ast.Is, ast.IsNot,
     # statements inside pure helper functions
     ast.Assign, ast.AugAssign, ast.AnnAssign, ast.Return, ast.For, ast.If, ast.Expr, ast.Pass, ast.arguments, ast.arg,
 )
@@ -178,3 +179,67 @@ def fold_expr(expr: ast.expr, extra: Optional[dict] = None, data_attrs: tuple = 
     ns = dict(f.ns)  # type: ignore[attr-defined]
     ns.update(extra or {})
     return eval(compile(ast.Expression(expr), "<fold expr>", "eval"), ns)  # noqa: S307
+
+
+class PureEvalError(Exception):
+    pass
+
+
+def eval_pure_function(fn: ast.FunctionDef, args: dict, data_attrs: tuple = (), extra: Optional[dict] = None, max_steps: int = 2000) -> Any:
+    """Finite-domain evaluation of a small pure function (assignments, if/else, return; expressions from the verified pure
+    subset) on concrete arguments — used to compare a helper's decisions with a specification over all inputs of a finite
+    domain, whatever the shape of its code.  Anything outside the subset raises PureEvalError."""
+    env = dict(extra or {})
+    env.update(args)
+    steps = 0
+
+    class _Return(Exception):
+        def __init__(self, v):
+            self.v = v
+
+    def ev(e):
+        try:
+            return fold_expr(e, env, data_attrs=data_attrs)
+        except AnalysisError as ex:
+            raise PureEvalError(str(ex))
+
+    def assign(t, v):
+        if isinstance(t, ast.Name):
+            env[t.id] = v
+        elif isinstance(t, (ast.Tuple, ast.List)):
+            vs = list(v)
+            if len(vs) != len(t.elts):
+                raise PureEvalError("unpack arity")
+            for a, b in zip(t.elts, vs):
+                assign(a, b)
+        else:
+            raise PureEvalError(f"store to {type(t).__name__}")
+
+    def run(body):
+        nonlocal steps
+        for st in body:
+            steps += 1
+            if steps > max_steps:
+                raise PureEvalError("too many steps")
+            if isinstance(st, ast.Expr) and isinstance(st.value, ast.Constant):
+                continue
+            if isinstance(st, ast.Pass):
+                continue
+            if isinstance(st, ast.Assign):
+                v = ev(st.value)
+                for t in st.targets:
+                    assign(t, v)
+            elif isinstance(st, ast.AnnAssign) and st.value is not None:
+                assign(st.target, ev(st.value))
+            elif isinstance(st, ast.If):
+                run(st.body if ev(st.test) else st.orelse)
+            elif isinstance(st, ast.Return):
+                raise _Return(ev(st.value) if st.value is not None else None)
+            else:
+                raise PureEvalError(f"statement {type(st).__name__} outside the evaluable subset")
+
+    try:
+        run(fn.body)
+    except _Return as r:
+        return r.v
+    return None
